@@ -105,9 +105,10 @@ func freshServer(st storage.Store, host *extension.Host) *smtp.Server {
 	return smtp.NewServer(root.SMTP, &message.StoreManager{AddrPolicy: ap, Store: st, ExtHost: host}, ap, host)
 }
 
-// one round: every client runs MAIL / RCPT <box> / DATA / text, then all final dots go out together; returns the number of 250s
-func freshRound(clients []*freshClient, box string, round int) int {
-	var acked atomic.Int32
+// one round: every client runs MAIL / RCPT <box> / DATA / text, then all final dots go out together; returns the number of 250s and the number of
+// final dots whose reply could not be read (a loaded machine: the outcome of that transaction is unknown to its client — it may or may not be stored)
+func freshRound(clients []*freshClient, box string, round int) (int, int) {
+	var acked, unknown atomic.Int32
 	var ready, done sync.WaitGroup
 	gate := &spinGate{}
 	for k, fc := range clients {
@@ -125,15 +126,18 @@ func freshRound(clients []*freshClient, box string, round int) int {
 				return
 			}
 			gate.wait()
-			if fc.say(".\r\n") == 250 {
+			switch fc.say(".\r\n") {
+			case 250:
 				acked.Add(1)
+			case 0:
+				unknown.Add(1)
 			}
 		}(k, fc)
 	}
 	ready.Wait()
 	gate.open.Store(true)
 	done.Wait()
-	return int(acked.Load())
+	return int(acked.Load()), int(unknown.Load())
 }
 
 func freshCount(st storage.Store, box string) (n int, subjects map[string]int) {
@@ -170,10 +174,13 @@ func freshSessions(c *core.Ctx) {
 		budget := time.Duration(c.Scale(4, 40)) * time.Second
 		for round := 0; round < rounds && time.Since(t0) < budget; round++ {
 			box := fmt.Sprintf("fresh%d", round)
-			acked := freshRound(clients, box, round)
+			acked, unknown := freshRound(clients, box, round)
 			n, subj := freshCount(st, box)
 			c.Compared(1)
-			if n != acked || len(subj) != acked {
+			if unknown > 0 {
+				c.H("first-deliveries:reply-not-read(outcome unknown to the client)")
+			}
+			if n < acked || n > acked+unknown || len(subj) != n {
 				c.Fail("stored-once-per-acknowledged-recipient", []string{fmt.Sprintf("memory store, %d SMTP sessions open; round %d: every session sends one message to <%s@example.com>, a mailbox nobody has used before; all final dots are sent at the same instant", len(clients), round, box)},
 					fmt.Sprintf("%d transactions were acknowledged with 250 but mailbox %q holds %d message(s) (%d distinct)", acked, box, n, len(subj)), "")
 				break
@@ -206,13 +213,16 @@ func freshSessions(c *core.Ctx) {
 				clients = append(clients, fc)
 			}
 		}
-		acked := freshRound(clients, "shared", round)
+		acked, unknown := freshRound(clients, "shared", round)
 		n, subj := freshCount(st, "shared")
+		if unknown > 0 {
+			c.H("first-deliveries:reply-not-read(outcome unknown to the client)")
+		}
 		for _, fc := range clients {
 			fc.conn.Close()
 		}
 		c.Compared(1)
-		bad := n != acked || len(subj) != acked
+		bad := n < acked || n > acked+unknown || len(subj) != n
 		os.RemoveAll(dir)
 		if bad {
 			c.Fail("stored-once-per-acknowledged-recipient", []string{fmt.Sprintf("file store created a moment ago (round %d); %d SMTP sessions each send one message to <shared@example.com>; all final dots are sent at the same instant — the first operations the store ever sees", round, len(clients))},
